@@ -129,7 +129,8 @@ def make_block_text(rng, b, layout):
 
 def gen_block(rng, i):
     kind = rng.random()
-    name = 'foo_fn_%d' % i if kind < 0.6 else rng.choice(['FooObj%d:prop-name', 'FooObj%d::sig-name', 'FooRec%d.field', 'FooRec%d', 'FOO_CONST_%d']) % i
+    name = 'foo_fn_%d' % i if kind < 0.6 else rng.choice(['FooObj%d:prop-name', 'FooObj%d::sig-name', 'FooRec%d.field', 'FooRec%d', 'FOO_CONST_%d',
+                                                          'FooRec%d.x', 'FooObj%d:a', 'FooObj%d::b', 'FooObj%d:a-b']) % i
     def anns(n):
         out, names = [], set()
         for _ in range(n):
@@ -138,7 +139,9 @@ def gen_block(rng, i):
                 names.add(a[0])
                 out.append(a)
         return out
-    words = ['alpha', 'beta', 'gamma', 'the', 'value', 'of', 'it.', 'See', 'foo_other()', 'too', '<b>x</b>', '&amp;', 'a:b', 'x(y)']
+    # the last five contain characters that str.splitlines() takes for line ends (U+2028, form feed, NEL, FS, VT) but GTK-Doc does not
+    words = ['alpha', 'beta', 'gamma', 'the', 'value', 'of', 'it.', 'See', 'foo_other()', 'too', '<b>x</b>', '&amp;', 'a:b', 'x(y)',
+             'a\u2028b', 'x\x0cy', 'p\x85q', 'u\x1cv', 'k\x0bl']
     def sentence():
         return ' '.join(rng.choice(words) for _ in range(rng.randint(1, 7)))
     def pdesc(n):
@@ -147,6 +150,9 @@ def gen_block(rng, i):
         d = [sentence() for _ in range(n)]
         if d and rng.random() < 0.15:
             d[0] = rng.choice(['::sig-name', ':prop', ':', ': :']) + ' ' + d[0]
+        if len(d) >= 2 and rng.random() < 0.25:
+            # a wrapped description whose second line begins with a parenthesised word: text, not an annotation
+            d[1] = rng.choice(['(see below)', '(optional)', '(nullable) really', '(skip)']) + ' ' + d[1]
         return d
     b = dict(name=name, anns=anns(rng.choice([0, 0, 1, 2])), params=[], desc=[], tags=[])
     for j in range(rng.randint(0, 4) if kind < 0.6 else 0):
